@@ -3,7 +3,7 @@ import ast
 
 from . import rule, info
 from ..program import AnalysisError, src, norm, ClassInfo
-from ..util import (choice_leaves, search_loop_rejects, is_name, calls_in, callee_qual, deref, ancestors, evaluator_calls, stmt_of, parent,
+from ..util import (handler_body_nodes, polarity, dispatch_chain, choice_leaves, search_loop_rejects, is_name, calls_in, callee_qual, deref, ancestors, evaluator_calls, stmt_of, parent,
                     handler_outcomes, completes_normally, enclosing_trys, handler_covers, in_handler_of)
 from .common import option_usage, raise_discipline
 from ..pattern import match, matches
@@ -130,8 +130,12 @@ def one_procedure(ctx):
         rets = [s for s in ast.walk(hs[0].ast) if isinstance(s, ast.Return)]
         ctx.ob(len(rets) == 1 and isinstance(rets[0].value, ast.Constant) and rets[0].value.value is False, mu,
                'a rejection gives False')
-    tr = [n for n in mu.node.body if isinstance(n, ast.Return)]
-    ctx.ob(len(tr) == 1 and isinstance(tr[0].value, ast.Constant) and tr[0].value.value is True, mu, 'acceptance gives True')
+    hb = set()
+    for h in hs:
+        hb |= set(handler_body_nodes(cfg, h))
+    tr = [n.ast for n in cfg.nodes if n.kind == 'stmt' and isinstance(n.ast, ast.Return) and n not in hb]
+    ctx.ob(len(tr) >= 1 and all(isinstance(r.value, ast.Constant) and r.value.value is True for r in tr), mu,
+           'acceptance gives True')
     ctx.floor(6)
 
 
@@ -148,7 +152,8 @@ def match_default(ctx):
     ctx.ob(ok, u, 'the default applies to GlomError rejections: except %s' % [src(h.ast.type) for h in hs if h.ast.type is not None])
     for h in hs:
         out = handler_outcomes(cfg, h)
-        ctx.ob(set(out) == {'raise-bare', 'normal'}, u, 'without a default the rejection propagates unchanged', 'outcomes %s' % sorted(out))
+        ctx.ob(set(out) in ({'raise-bare', 'normal'}, {'raise-bare', 'return'}), u,
+               'without a default the rejection propagates unchanged', 'outcomes %s' % sorted(out))
         for r in [s for s in ast.walk(h.ast) if isinstance(s, ast.Raise)]:
             g = [a for a in ancestors(r) if isinstance(a, ast.If)]
             ok = bool(g) and isinstance(g[0].test, ast.Compare) and isinstance(g[0].test.ops[0], ast.Is) \
@@ -160,8 +165,13 @@ def match_default(ctx):
             and avs[0].args[1].attr == 'default' and is_name(avs[0].args[2], u.params[2])
         ctx.ob(ok, u, 'the default is evaluated as an argument on the current target: %s' % [norm(a) for a in avs])
     rets = [n for n in u.own_nodes() if isinstance(n, ast.Return)]
-    st = stmt_of(evs[0])
-    ctx.ob(len(rets) == 1 and isinstance(st, ast.Assign) and is_name(rets[0].value, st.targets[0].id), u,
+
+    def is_result(r):
+        # the evaluation's value or the evaluated default, directly or through a local
+        vals = [v for _, v in cfg.reaching_defs(cfg.node_of(r), r.value.id)] if is_name(r.value) else [r.value]
+        return bool(vals) and all(v is evs[0] or (isinstance(v, ast.Call) and callee_qual(p, u, v) == 'core.arg_val')
+                                  for v in vals)
+    ctx.ob(len(rets) >= 1 and all(r.value is not None and is_result(r) for r in rets), u,
            'Match returns the matched value or the default: %s' % [norm(r) for r in rets])
     ctx.floor(5)
 
@@ -292,16 +302,8 @@ def dispatcher(ctx):
     u = ctx.unit('matching._glom_match')
     cfg = ctx.cfg(u)
     target, spec, scope = u.params[:3]
-    top = next((n for n in u.node.body if isinstance(n, ast.If)), None)
-    ctx.require(isinstance(top, ast.If), '_glom_match: dispatch chain not found')
-    chain = []
-    s = top
-    while True:
-        chain.append(s)
-        if len(s.orelse) == 1 and isinstance(s.orelse[0], ast.If):
-            s = s.orelse[0]
-        else:
-            break
+    chain, _tail = dispatch_chain(u.node.body)
+    ctx.require(chain, '_glom_match: dispatch chain not found')
     tests = [norm(c.test) for c in chain]
     want = ['isinstance(%s, type)' % spec, 'isinstance(%s, dict)' % spec, 'isinstance(%s, (list, set, frozenset))' % spec,
             'isinstance(%s, tuple)' % spec, 'callable(%s)' % spec, '%s != %s' % (target, spec)]
@@ -311,7 +313,10 @@ def dispatcher(ctx):
     ty, di, seq, tup, cal, eq = chain
     B = lambda n: ast.Module(body=n.body, type_ignores=[])
     # type rule
-    ok = len(ty.body) == 1 and isinstance(ty.body[0], ast.If) and norm(ty.body[0].test) == 'not isinstance(%s, %s)' % (target, spec)
+    g0 = ty.body[0] if ty.body and isinstance(ty.body[0], ast.If) else None
+    ok = g0 is not None and polarity(g0.test, 'isinstance(%s, %s)' % (target, spec)) is not None \
+        and all(isinstance(x, (ast.If, ast.Return)) for x in ty.body) and len(ty.body) <= 2 \
+        and (len(ty.body) == 1 or is_name(ty.body[1].value, target))
     ctx.ob(ok, u, 'a type pattern is decided by isinstance(target, spec)')
     # sequence: type check, any-alternative per item
     ok = isinstance(seq.body[0], ast.If) and norm(seq.body[0].test) == 'not isinstance(%s, type(%s))' % (target, spec)
